@@ -240,6 +240,15 @@ class NDIntrinsics(E3Intrinsics):
             data = eng.slice_read_all(st, msg, pos) if n else []
             eng.log_access(st, "r", msg.obj, msg.path, pos)
             st.notes["parsed"] = st.notes.get("parsed", ()) + ((tuple(data), msg.obj),)
+            # the parser state this chunk is parsed with: string copying must be on (the chunk buffer goes back to the pool, C16)
+            cs = None
+            for tid, t in eng.p.types.items():
+                if t.get("k") == "struct" and t.get("name", "").endswith(".internalParsedJson"):
+                    names = [f["name"] for f in t["fields"]]
+                    if "copyStrings" in names:
+                        cs = eng.deref(st, pj, pos)[names.index("copyStrings")]
+                    break
+            st.notes["parse_copy"] = st.notes.get("parse_copy", ()) + ((cs, pos),)
             mode = eng.opts.get("e3_parse_outcomes", "both")
             ok_state = st
             items = []
